@@ -136,3 +136,41 @@ Theorem dns_simple_names_meet_the_contract : forall buf rlen fuel, DnsParseProof
   DnsParse.dn_contract rlen (fun p => DnsParse.dn_simple_from fuel buf rlen p true).
 Proof. exact DnsParseProofs.dn_simple_meets_contract. Qed.
 Print Assumptions dns_simple_names_meet_the_contract.
+
+(* ---- substdio: the buffered I/O layer under every program (Mem/Substdio.v) ----
+   The operating system is a script of results for the successive read/write calls (short, interrupted, failing). *)
+From NQ Require Mem.Substdio Mem.SubstdioProofs.
+Theorem substdio_output_is_the_put_stream : forall cap scr ops b,
+  Substdio.o_run (Substdio.o_init cap scr) ops = (true, b) ->
+  Substdio.o_out b ++ Substdio.o_pend b = flat_map Substdio.op_data ops.
+Proof. exact SubstdioProofs.o_run_stream. Qed.
+Print Assumptions substdio_output_is_the_put_stream.
+Theorem substdio_output_never_invents_or_reorders : forall cap scr ops ok b,
+  Substdio.o_run (Substdio.o_init cap scr) ops = (ok, b) -> exists rest, flat_map Substdio.op_data ops = Substdio.o_out b ++ rest.
+Proof. exact SubstdioProofs.o_run_prefix. Qed.
+Print Assumptions substdio_output_never_invents_or_reorders.
+Theorem substdio_output_copies_stay_inside_the_buffer : forall cap scr ops ok b,
+  Substdio.o_run (Substdio.o_init cap scr) ops = (ok, b) ->
+  (length (Substdio.o_pend b) <= cap)%nat /\ Forall (fun c => (fst c + snd c <= cap)%nat) (Substdio.o_copies b).
+Proof. exact SubstdioProofs.o_run_safe. Qed.
+Print Assumptions substdio_output_copies_stay_inside_the_buffer.
+Theorem substdio_get_hands_out_the_stream_in_order : forall b len r b', SubstdioProofs.i_ok b -> Substdio.i_get b len = (r, b') ->
+  SubstdioProofs.i_ok b' /\ Substdio.i_cap b' = Substdio.i_cap b /\
+  match r with
+  | Some d => SubstdioProofs.i_rest b = d ++ SubstdioProofs.i_rest b' /\ (length d <= len)%nat
+  | None => SubstdioProofs.i_rest b' = SubstdioProofs.i_rest b
+  end.
+Proof. exact SubstdioProofs.i_get_ok. Qed.
+Print Assumptions substdio_get_hands_out_the_stream_in_order.
+Theorem getln_lines_are_the_input : forall cap src scr sep fuel ls,
+  (0 < cap)%nat -> (length src < fuel)%nat -> SubstdioProofs.no_err scr ->
+  Substdio.getlns_all fuel (Substdio.i_init cap src scr) sep = (ls, true) ->
+  flat_map fst ls = src /\
+  Forall (fun l => snd l = true -> exists body, fst l = body ++ [sep] /\ ~ In sep body) ls.
+Proof. exact SubstdioProofs.getlns_all_concat. Qed.
+Print Assumptions getln_lines_are_the_input.
+Theorem getln_reaches_the_end_of_input : forall cap src scr sep fuel,
+  (0 < cap)%nat -> (length src < fuel)%nat -> SubstdioProofs.no_err scr ->
+  exists ls, Substdio.getlns_all fuel (Substdio.i_init cap src scr) sep = (ls, true).
+Proof. exact SubstdioProofs.getlns_all_total. Qed.
+Print Assumptions getln_reaches_the_end_of_input.
